@@ -173,10 +173,20 @@ def _validate(ctx, chunks, jobs):
             else:
                 newbad.append(ln)
         if newbad:
-            out = [recs[i - 1] for i in newbad[:50]]
+            # replay file: the unexplained lines, each "Mut" line preceded by the "Hdr" line it refers to
+            out, hdrs, have = [], {}, None
+            for i, rec in enumerate(recs, 1):
+                if rec["e"] == "Hdr":
+                    hdrs[rec["hid"]] = rec
+                if i in newbad[:50]:
+                    if rec["e"] == "Mut" and have != rec["hid"] and rec["hid"] in hdrs:
+                        out.append(hdrs[rec["hid"]])
+                        have = rec["hid"]
+                    out.append(rec)
             rp = os.path.join(ctx.work, "violation-" + os.path.basename(p))
             lib.write_ndjson(rp, out)
-            ctx.violation("%d recorded outcomes not explained by KeyParser.tla, first: %s" % (len(newbad), json.dumps(out[0])[:300]), rp)
+            first = [x for x in out if x["e"] != "Hdr" or len(out) == 1][0]
+            ctx.violation("%d recorded outcomes not explained by KeyParser.tla, first: %s" % (len(newbad), json.dumps(first)[:300]), rp)
 
 
 def run(ctx):
